@@ -23,6 +23,8 @@ from mc.core import h64
 from icalendar.cal import Event, Todo, Journal, InvalidCalendar, IncompleteComponent, Calendar
 
 BERLIN = ZoneInfo("Europe/Berlin")
+from mc.userkinds import Stamp, Day  # noqa: E402
+
 VALS = {
     "d1": date(2024, 5, 1), "d2": date(2024, 5, 3),
     "n1": datetime(2024, 5, 1, 10, 0), "n2": datetime(2024, 5, 2, 12, 30),
@@ -32,6 +34,8 @@ VALS = {
     # a third tzinfo implementation (dateutil, wall-clock arithmetic) and a fixed offset without zone id
     "du": datetime(2024, 10, 26, 10, 0, tzinfo=__import__("dateutil.tz").tz.gettz("Europe/Berlin")),
     "fx": datetime(2024, 3, 30, 10, 0, tzinfo=timezone(timedelta(hours=5, minutes=30))),
+    # instances of user subclasses of date / datetime (mc/userkinds.py): same kinds as the plain values
+    "sd": Day(2024, 5, 2), "sn": Stamp(2024, 5, 1, 11, 0), "su": Stamp(2024, 5, 2, 9, 0, tzinfo=timezone.utc),
 }
 DURS = {"P0": timedelta(0), "P1D": timedelta(days=1), "PT1H": timedelta(hours=1), "P1DT2H": timedelta(days=1, hours=2)}
 WRONG = {"str": "20240501", "int": 5}
